@@ -106,6 +106,14 @@ fn run_setup(s: &Setup<'_>, acc: &mut Acc, states: &mut HashSet<u64>) {
             };
             model_step(w, &mut model, l);
             if step < check_from {
+                // judged when it was the last step of a shorter sequence; keep the model aligned
+                // with the implementation so that later steps are judged on their own
+                if res.is_ok() {
+                    let real: Vec<usize> = cache.heads().iter().filter_map(|h| w.idx_of.get(&h.id).copied()).collect();
+                    if real.len() == cache.heads().len() {
+                        model = real;
+                    }
+                }
                 continue;
             }
             acc.count("transitions", 1);
@@ -282,7 +290,10 @@ pub fn run(args: &Args) {
     rep.set("exhaustive", true);
     rep.set("flavour", flavour);
     rep.assume("memory-backed provider; the documented effect (ignore uncommitted / equal / ancestor-of-entry, else drop exactly the ancestors and append if fewer than PEER_HEAD_MAX entries remain) is the model");
-    rep.require_nonzero("steps_on_full_cache");
+    // vacuity guards apply to clean runs only: a run that found violations is not vacuous
+    if rep.violations().is_empty() {
+        rep.require_nonzero("steps_on_full_cache");
+    }
     rep.finish()
 }
 
